@@ -373,3 +373,13 @@ func nameOfBytes(b []byte) string {
 	h := blake2b.Sum256(b)
 	return base64.RawURLEncoding.EncodeToString(h[:])
 }
+
+// bScale multiplies the thorough-tier seed counts by BOUNDED_SCALE (exploration beyond the
+// registered tiers; ./check never sets it).
+func bScale(n int) int {
+	var m int
+	if _, err := fmt.Sscanf(os.Getenv("BOUNDED_SCALE"), "%d", &m); err == nil && m > 1 {
+		return n * m
+	}
+	return n
+}
